@@ -127,12 +127,23 @@ func acquiresLock(g *callGraph, f *ssa.Function, l string, seen map[*ssa.Functio
 // checkSingleSection: within each in-scope function, no path (ignoring loop back edges) leads from one
 // critical-section start on lock l to another: an operation that releases and re-acquires the lock is not
 // atomic with respect to the guarded state.
-func checkSingleSection(p *Prog, r *Report, rule, l string, scope string) {
+func checkSingleSection(p *Prog, r *Report, rule, l string, scope string, only ...string) {
 	g := p.CallGraph()
 	for _, f := range p.RepoFns {
 		k := fnKey(f)
 		if !keyInPkg(k, scope) {
 			continue
+		}
+		if len(only) > 0 {
+			hit := false
+			for _, o := range only {
+				if f.Name() == o {
+					hit = true
+				}
+			}
+			if !hit {
+				continue
+			}
 		}
 		var starts []ssa.Instruction
 		eachInstr(f, func(in ssa.Instruction) {
